@@ -24,6 +24,8 @@ import os
 import random
 import multiprocessing as mp
 
+import numpy as np
+
 from harness import common
 
 LEVEL = "exploration"
@@ -255,8 +257,22 @@ def observe_conv(inst):
         rec["v_spa"] = fxi(math.sin(math.radians(float(pa_out))), 1e4)
         rec["v_cpa"] = fxi(math.cos(math.radians(float(pa_out))), 1e4)
         rec["v_curv_ppm"] = fxi(math.radians(a) * math.tan(math.radians(abs(pos[1]))), 1e6)
+        # the same vector from a tail given with INTEGER type (python ints / numpy integers, alternately)
+        xi, yi = int(round(x)), int(round(y))
+        tail = (xi, yi) if (xi + yi) % 2 else (np.int64(xi), np.int64(yi))
+        _, _, ir_out, ipa_out = w.pix2sky_vec(tail, rp, th)
+        t1 = std_sky(std, xi, yi)
+        t2 = std_sky(std, xi + rp * math.cos(math.radians(th)), yi + rp * math.sin(math.radians(th)))
+        rec["iv_r_out"] = fxi(ir_out, 1e9)
+        rec["iv_pa_out"] = udeg(ipa_out)
+        rec["iv_sep"] = fxi(_sep(t1, t2), 1e9)
+        rec["iv_bear"] = udeg(_bearing(t1, t2))
         # ellipse: sky -> pixel -> sky
         x, y, sx, sy, th = w.sky2pix_ellipse(pos, a, b, pa)
+        _, _, ia_out, _, _ = w.pix2sky_ellipse(np.array([xi, yi]), sx, sy, th)
+        u2 = std_sky(std, xi + sx * math.cos(math.radians(th)), yi + sx * math.sin(math.radians(th)))
+        rec["ie_a_out"] = fxi(ia_out, 1e9)
+        rec["ie_sep"] = fxi(_sep(t1, u2), 1e9)
         _, _, a_out, b_out, epa_out = w.pix2sky_ellipse((x, y), sx, sy, th)
         e1 = std_sky(std, x, y)
         e2 = std_sky(std, x + sx * math.cos(math.radians(th)), y + sx * math.sin(math.radians(th)))
@@ -457,7 +473,9 @@ CANNED = [
      "rt_dcol_e8": 0, "rt_drow_e8": 0, "skyrt_pdeg": 0, "scale_mas": 10000, "std_pdeg": 0, "tanrho_pm": 26,
      "v_bear": 78372733, "v_cpa": 2015, "v_curv_ppm": 348, "v_fbear": 78372733,
      "v_fsep": 13888889, "v_pa_in": 78372733, "v_pa_out": 78372733, "v_r_in": 13888889,
-     "v_r_out": 13888889, "v_sep": 13888889, "v_spa": 9795, "v_ue": 9794, "v_un": 2017},
+     "v_r_out": 13888889, "v_sep": 13888889, "v_spa": 9795, "v_ue": 9794, "v_un": 2017,
+     "iv_r_out": 13888889, "iv_sep": 13888889, "iv_pa_out": 78372733, "iv_bear": 78372733,
+     "ie_a_out": 13888889, "ie_sep": 13888889},
     {"dir": "E", "err": "", "h_de": 2778254, "h_dn": 49, "h_pa": 90000983,
      "id": "canned-hand", "kind": "hand", "ratio_pm": 600, "scale_mas": 10000},
     {"bmaj": 13888889, "bmin": 8333333, "bpa": 78372733, "err": "", "id": "canned-psf",
@@ -485,6 +503,9 @@ def selftest(ctx):
     mut(conv, "vpa", "vec_pa_round_trip", v_pa_out=lambda v: v + 20000)
     mut(conv, "vgc", "vec_length_is_great_circle", v_sep=lambda v: v - v // 400)
     mut(conv, "vbear", "vec_pa_is_bearing", v_bear=lambda v: -v)
+    mut(conv, "ivgc", "vec_from_integer_pixel_is_great_circle", iv_r_out=lambda v: v - v // 300)
+    mut(conv, "ivb", "vec_from_integer_pixel_is_bearing", iv_pa_out=lambda v: v + 30000)
+    mut(conv, "iegc", "ell_from_integer_pixel_is_great_circle", ie_a_out=lambda v: v - v // 300)
     mut(conv, "vfwd", "vec_sky2pix_great_circle_east_of_north", v_fbear=lambda v: v + 15000)
     mut(conv, "ven", "vec_east_of_north", v_ue=lambda v: -v)
     mut(conv, "ea", "ell_major_round_trip", e_a_out=lambda v: v - v // 500)
